@@ -11,7 +11,8 @@ Whitelisted: reads of `spec[<key>]` for the keys of VARS, tuple unpacking / cons
 `[2:]` slicing of `kernel_size` and `output_shape`, `+ - * / //`, int/float literals (decimal literals
 become exact fractions), local assignments, `return`, `assert` of `x in [..]` / `x == c` joined by
 `and`, the idiom `1 if spec['_parameters']['bias'] is not None else 0`, `.item()`, `torch.floor`,
-`math.floor`, `torch.floor_divide`, `torch.tensor(<literal>)`, `torch.tensor([<literals>]).mean()`,
+`math.floor`, `torch.floor_divide`, `torch.tensor(<x>)`, `float(<x>)`, a conditional on `isinstance(..)` whose
+body only coerces (re-assigns a name to the same value), `torch.tensor([<literals>]).mean()`,
 nested dict literals of constants indexed twice by terms (look-up table), calls of module-level
 functions of plinio/cost (inlined, also across `from .x import f`) and `<Class>.apply(..)` of
 `torch.autograd.Function` subclasses (their `forward` is inlined; `backward` is not modelled).
@@ -186,7 +187,22 @@ class Translator:
         if isinstance(st, ast.Assert):
             self.guard(m, st.test, env, guards, depth)
             return None
+        if isinstance(st, ast.If) and not st.orelse and self.is_type_test(st.test):
+            # `if not isinstance(x, torch.Tensor): x = torch.tensor(float(x))`: a conditional on the Python TYPE of a
+            # value whose body only re-assigns names to the same symbolic value (coercions) is a no-op
+            for b in st.body:
+                if not (isinstance(b, ast.Assign) and len(b.targets) == 1 and isinstance(b.targets[0], ast.Name) and b.targets[0].id in env):
+                    raise Untranslatable('type-test conditional with a body other than coercions (line %d of %s)' % (st.lineno, m.name))
+                if self.expr(m, b.value, env, guards, depth) != env[b.targets[0].id]:
+                    raise Untranslatable('type-test conditional changes the value of %s (line %d of %s)' % (b.targets[0].id, st.lineno, m.name))
+            return None
         raise Untranslatable('statement %s (line %d of %s)' % (type(st).__name__, st.lineno, m.name))
+
+    @staticmethod
+    def is_type_test(t):
+        if isinstance(t, ast.UnaryOp) and isinstance(t.op, ast.Not):
+            t = t.operand
+        return isinstance(t, ast.Call) and isinstance(t.func, ast.Name) and t.func.id == 'isinstance' and len(t.args) == 2 and isinstance(t.args[0], ast.Name)
 
     def guard(self, m, t, env, guards, depth):
         if isinstance(t, ast.BoolOp) and isinstance(t.op, ast.And):
@@ -352,6 +368,12 @@ class Translator:
                 if len(fwd) != 1:
                     raise Untranslatable('%s has no forward' % cname)
                 return self.call_function(cm, fwd[0], [ev(x) for x in e.args], guards, depth + 1, skip_first=True)
+            # float(x): value-preserving coercion
+            if isinstance(f, ast.Name) and f.id == 'float' and len(e.args) == 1:
+                v = ev(e.args[0])
+                if is_term(v):
+                    return v
+                raise Untranslatable('float() of a non-number')
             # module-level function
             if isinstance(f, ast.Name):
                 fm, fname = m, f.id
